@@ -153,7 +153,11 @@ class _FnWalker:
                 return
             off, rem = _flatten(idx, dims)
             index, base_name = off, base
-        if base_name not in self.params:
+        if base_name in self.params:
+            kind = "param"
+        elif base_name in self.local_types:
+            kind = "local_ptr" if type_dims(self.local_types.get(base_name, ""))[2] else "local_array"
+        else:
             return
         try:
             index = sp.expand(index)
@@ -163,7 +167,7 @@ class _FnWalker:
         if key in self._read_keys:
             return
         self._read_keys.add(key)
-        self.reads.append(Write(base_name, "param", index, self.vars_of(index), "read", self.tu.line(node) or 0, self.name, (), [], tuple(self.loop_stack)))
+        self.reads.append(Write(base_name, kind, index, self.vars_of(index), "read", self.tu.line(node) or 0, self.name, (), [], tuple(self.loop_stack)))
 
     def _sw(self, nm, line):
         self.scalar_writes.setdefault(nm, []).append(line)
